@@ -482,6 +482,16 @@ def check(c):
     })
 
 
+def finish(c):
+    return c.finish(explanation=(
+        "Proof: generic theorems about the model of logmath_add for every well-formed table; kernel-computed shape and exact "
+        "accuracy (in N, and restated with Real.logb) of the four tables dumped from logmath_init of this build, at every "
+        "distance inside and beyond the table. Tie: tables re-dumped and re-proved when changed; real code vs model on "
+        "exhaustive difference sweeps in both argument orders, range ends, log-zero, random pairs, log/exp sweep. Oracle: the "
+        "property evaluated in exact arithmetic on every value the C code returned. Known finding D20: logmath_log truncates "
+        "toward zero, so exp(log p) > p for p < 1 (not repaired: a floor() changes pinned test outputs)."))
+
+
 def replay(c, path):
     c.lean_obligations()
     obj = json.loads(open(path).read())
